@@ -240,6 +240,9 @@ def calls_in(text):
 
 @item("C12_VM_EMIT")
 def _vm_emit(repo):
+    """which (mode, undefined kind) pairs the inline test of the Emit arm rejects: the modes of
+    `let strict_undefined = matches!(..)` and the kinds of the `matches!(value.0, ..)` next to it.  WHERE in
+    the arm the test sits (does it dominate every exit?) is the business of C12_VM_EMIT_SHAPE."""
     body, arms = vm_arms(repo)
     m = re.search(r"let\s+strict_undefined\s*=\s*(matches!\([^;]*\))\s*;", body, re.S)
     if not m:
@@ -249,12 +252,166 @@ def _vm_emit(repo):
     want = "ifstrict_undefined&&matches!(value.0,ValueRepr::Undefined(UndefinedType::Default))"
     if want not in emit or emit.count("strict_undefined") != 1:
         raise KeyError("Emit arm: `if strict_undefined && matches!(value.0, Undefined(Default))`")
-    if "ifstate.env().is_default_formatter(){ifstrict_undefined" not in emit or "state.env().format(&value,state,out)" not in emit:
-        raise KeyError("Emit arm: default-formatter / env.format split")
     others = [n for n, t in arms.items() if n != "Emit" and "strict_undefined" in t]
     if others:
         raise KeyError(f"strict_undefined is used outside Emit: {others}")
     return {"modes": modes, "kinds": [1]}, lean_rows("undefVmEmitFails", [(modes, [1], 0)])
+
+
+# ---- control-flow shape of an instruction arm
+def parse_block(text):
+    """statements of a Rust block body as a tree: ("act", text) | ("ite", cond, [then], [else]).
+    cfg-gated statements are kept with their attribute in the text."""
+    out, i, n = [], 0, len(text)
+
+    def skip_ws(i):
+        while i < n and text[i].isspace():
+            i += 1
+        return i
+
+    def balanced(i, open_ch, close_ch):
+        depth = 0
+        while i < n:
+            if text[i] == open_ch:
+                depth += 1
+            elif text[i] == close_ch:
+                depth -= 1
+                if depth == 0:
+                    return i
+            i += 1
+        raise KeyError("unbalanced arm text")
+
+    def parse_if(i):
+        # text[i:] starts with `if`
+        j, depth = i + 2, 0
+        while j < n and not (text[j] == "{" and depth == 0):
+            if text[j] in "([":
+                depth += 1
+            elif text[j] in ")]":
+                depth -= 1
+            j += 1
+        cond = text[i + 2:j].strip()
+        e = balanced(j, "{", "}")
+        then = parse_block(text[j + 1:e])
+        k = skip_ws(e + 1)
+        els = []
+        if text.startswith("else", k) and not (text[k + 4:k + 5].isalnum() or text[k + 4:k + 5] == "_"):
+            k = skip_ws(k + 4)
+            if text.startswith("if", k) and not text[k + 2:k + 3].isalnum():
+                node, k = parse_if(k)
+                els = [node]
+            else:
+                e2 = balanced(k, "{", "}")
+                els = parse_block(text[k + 1:e2])
+                k = e2 + 1
+        else:
+            k = e + 1
+        return ("ite", cond, then, els), k
+
+    while True:
+        i = skip_ws(i)
+        if i >= n:
+            break
+        start = i
+        attr = ""
+        while text.startswith("#[", i):
+            e = balanced(i, "[", "]")
+            attr += text[i:e + 1]
+            i = skip_ws(e + 1)
+        if not attr and re.match(r"if\b", text[i:]):
+            node, i = parse_if(i)
+            out.append(node)
+            continue
+        # a statement: up to `;` at depth 0, or a block-like expression ending in `}` at depth 0
+        depth, j = 0, i
+        while j < n:
+            c = text[j]
+            if c in "([{":
+                depth += 1
+            elif c in ")]}":
+                depth -= 1
+                if depth == 0 and c == "}" and re.match(r"(?:match|for|while|loop|unsafe|\{)", text[i:].lstrip()):
+                    j += 1
+                    break
+            elif c == ";" and depth == 0:
+                j += 1
+                break
+            j += 1
+        out.append(("act", (attr + " " if attr else "") + text[i:j].strip().rstrip(";").strip()))
+        i = j
+        if j == start:
+            raise KeyError("arm parser made no progress")
+    return out
+
+
+EMIT_STMTS = {
+    "letvalue=stack.pop()": "pop",
+    "bail!(Error::from(ErrorKind::UndefinedError))": "bail_undefined",
+    "ctx_ok!(write_escaped(out,state.auto_escape,&value))": "write_escaped",
+    "ctx_ok!(state.env().format(&value,state,out))": "env_format",
+}
+EMIT_CONDS = {
+    "state.env().is_default_formatter()": "default_formatter",
+    "strict_undefined&&matches!(value.0,ValueRepr::Undefined(UndefinedType::Default))": "strict_undefined_default",
+    "out.is_discarding()": "out_discarding",
+    "!out.is_discarding()": "not_out_discarding",
+}
+
+
+def shape_term(nodes, classify_stmt, classify_cond):
+    """the statement list as a Lean `ArmShape` term (and as JSON)"""
+    js, term = [], ".done"
+    parts = []
+    for nd in nodes:
+        if nd[0] == "act":
+            t = re.sub(r"\s+", "", nd[1])
+            if t.startswith('#[cfg(feature="verif_hooks")]'):
+                continue          # add-only instrumentation behind the verification feature
+            if re.match(r"(?:return\b|continue\b|break\b)", nd[1]):
+                kind = "exit"
+            else:
+                kind = classify_stmt.get(t, "other:" + nd[1][:60])
+            parts.append(("act", kind))
+            js.append(kind)
+        else:
+            c = re.sub(r"\s+", "", nd[1])
+            cond = classify_cond.get(c, "other:" + nd[1][:60])
+            tj, tt = shape_term(nd[2], classify_stmt, classify_cond)
+            ej, et = shape_term(nd[3], classify_stmt, classify_cond)
+            parts.append(("ite", cond, tt, et))
+            js.append({"if": cond, "then": tj, "else": ej})
+    for p_ in reversed(parts):
+        if p_[0] == "act":
+            term = f"(.act {lean_str(p_[1])} {term})"
+        else:
+            term = f"(.ite {lean_str(p_[1])} {p_[2]} {p_[3]} {term})"
+    return js, term
+
+
+ARM_SHAPE_DECL = ("/-- control-flow shape of an instruction arm of `eval_impl`: statements by kind, `if` by the kind of its\n"
+                  "    condition; `next` is where both branches of an `if` continue -/\n"
+                  "inductive ArmShape where\n"
+                  "  | done\n"
+                  "  | act (kind : String) (next : ArmShape)\n"
+                  "  | ite (cond : String) (thenB elseB next : ArmShape)\n"
+                  "  deriving Repr, DecidableEq, Inhabited\n")
+
+
+@item("C12_VM_EMIT_SHAPE")
+def _vm_emit_shape(repo):
+    """the Emit arm of eval_impl as a tree of classified statements and conditions (statements the
+    classifier does not know become `other:<text>`, which the Lean side rejects): the model of Emit is
+    proved equal to the interpretation of this tree, and `emitArmOk` requires that the undefined check
+    dominates every write and every exit of the arm."""
+    body, arms = vm_arms(repo)
+    arm = arms["Emit"]
+    k = arm.index("=>")
+    inner = block_after(arm, k)
+    if not inner:
+        raise KeyError("Emit arm body")
+    nodes = parse_block(inner[1:-1])
+    js, term = shape_term(nodes, EMIT_STMTS, EMIT_CONDS)
+    return js, ARM_SHAPE_DECL + "def undefVmEmitShape : ArmShape := " + term
 
 
 @item("C12_VM_SLICE")
@@ -295,6 +452,39 @@ def _env_format(repo):
                 parts = [x for x in split_top(alt[1:-1], ",") if x.strip()]
                 rows.append((parse_modes(parts[0]), parse_second(parts[1], False), outcome))
     return rows, lean_rows("undefEnvFormat", rows)
+
+
+def is_single_match(body):
+    """is the (comment-free) function body exactly one `match (..) { .. }` expression -- no statement in front of it
+    (an early return would bypass the rows), nothing after it?"""
+    t = body.strip()
+    m = re.match(r"match\s*\([^)]*\)\s*\{", t)
+    if not m:
+        return False
+    depth, i = 0, m.end() - 1
+    while i < len(t):
+        if t[i] == "{":
+            depth += 1
+        elif t[i] == "}":
+            depth -= 1
+            if depth == 0:
+                return t[i + 1:].strip() == ""
+        i += 1
+    return False
+
+
+@item("C12_ROW_FNS")
+def _row_fns(repo):
+    """the functions whose `match` rows the model interprets (the four helpers of UndefinedBehavior and
+    Environment::format): is each body nothing but that match?"""
+    rows = []
+    for name in ("handle_undefined", "is_true", "assert_iterable", "assert_value_not_undefined"):
+        rows.append(("utils.rs::" + name, is_single_match(strip_comments(helper_body(repo, name)))))
+    src = strip_comments(read(repo, ENVRS))
+    rows.append(("environment.rs::format", is_single_match(fn_body(src, r"pub\(crate\) fn format\s*\("))))
+    lean = ("/-- (function whose match rows are extracted, its body is exactly that match) -/\n"
+            "def undefRowFnsWholeBody : List (String × Bool) := [" + ", ".join(f"({lean_str(n)}, {'true' if b else 'false'})" for n, b in rows) + "]")
+    return rows, lean
 
 
 @item("C12_VM_SITES")
@@ -583,6 +773,79 @@ def _builtin_sigs(repo):
             "def undefBuiltinSigs : List (String × String × List (List String × String) × List String × List String) := [\n  "
             + ",\n  ".join(f"({lean_str(k)}, {lean_str(n)}, [{', '.join(lt(x) for x in t)}], {ls(r)}, {ls(h)})" for k, n, f, t, r, h in rows) + "]")
     return [{"kind": k, "name": n, "fn": f, "types": t, "reach": r, "helpers": h} for k, n, f, t, r, h in rows], lean
+
+
+CONTRIB = "minijinja-contrib/src"
+
+
+@item("C12_CONTRIB_SIGS")
+def _contrib_sigs(repo):
+    """the filters / functions minijinja-contrib registers (add_to_environment): argument types in order and how
+    the body can reach the mode (same row format as C12_BUILTIN_SIGS), plus how pycompat's method callback does."""
+    lib = strip_comments(read(repo, CONTRIB + "/lib.rs"))
+    body = fn_body(lib, r"pub fn add_to_environment\s*\(")
+    regs = re.findall(r"env\s*\.\s*add_(filter|function|test)\(\s*\"([^\"]+)\"\s*,\s*(\w+)::(\w+)\s*\)", body)
+    if len(regs) != len(re.findall(r"env\s*\.\s*add_(?:filter|function|test)\(", body)) or len(regs) < 8:
+        raise KeyError("add_to_environment: a registration the extractor cannot read")
+    srcs = {"filters": strip_comments(read(repo, CONTRIB + "/filters/mod.rs")) + "\n" + strip_comments(read(repo, CONTRIB + "/filters/datetime.rs")),
+            "globals": strip_comments(read(repo, CONTRIB + "/globals.rs"))}
+    fns = {k: rust_fns(v) for k, v in srcs.items()}
+    rows = []
+    for kind, name, mod, fn in regs:
+        if mod not in fns or fn not in fns[mod]:
+            raise KeyError(f"contrib fn {mod}::{fn} not found")
+        params, fbody = fns[mod][fn]
+        types = []
+        for p_ in split_params(params):
+            mm = re.match(r"(?:mut\s+)?\w+\s*:\s*(.+)$", p_, re.S)
+            if not mm:
+                raise KeyError(f"parameter `{p_}` of {fn}")
+            t = re.sub(r"\b(?:\w+::)+", "", norm_type(mm.group(1)))
+            if t in ("&State", "&mut State"):
+                continue
+            types.append(t)
+        seen, todo, reach, helpers = set(), [fn], set(), []
+        while todo:
+            f = todo.pop()
+            if f in seen or f not in fns[mod]:
+                continue
+            seen.add(f)
+            b = fns[mod][f][1]
+            for tag, rx in REACH:
+                if re.search(rx, b):
+                    reach.add(tag)
+            helpers += [h for h, _ in calls_in(b)]
+            for callee in set(re.findall(r"(?<![\.\w:])(\w+)\s*\(", b)):
+                if callee in fns[mod] and callee != f:
+                    todo.append(callee)
+        rows.append((kind, name, fn, types, sorted(reach), helpers))
+    # pycompat: every way its source reaches the mode
+    py = strip_comments(read(repo, CONTRIB + "/pycompat.rs"))
+    py_reach = sorted(tag for tag, rx in REACH if re.search(rx, py))
+    py_helpers = [h for h, _ in calls_in(py)]
+
+    def ls(xs):
+        return "[" + ", ".join(lean_str(x) for x in xs) + "]"
+
+    def parts(t):
+        ws = []
+        while True:
+            m = re.match(r"(Option|Rest|Vec)<(.*)>$", t)
+            if not m:
+                return ws, t
+            ws.append(m.group(1)); t = m.group(2)
+
+    def lt(t):
+        ws, b = parts(t)
+        return f"({ls(ws)}, {lean_str(b)})"
+    lean = ("/-- what minijinja-contrib registers: (kind, name, argument types as (wrappers, base type), how the body can reach\n"
+            "    the mode, helper calls) -/\n"
+            "def undefContribSigs : List (String × String × List (List String × String) × List String × List String) := [\n  "
+            + ",\n  ".join(f"({lean_str(k)}, {lean_str(n)}, [{', '.join(lt(x) for x in t)}], {ls(r)}, {ls(h)})" for k, n, f, t, r, h in rows) + "]\n"
+            + f"/-- how the source of pycompat's unknown-method callback can reach the mode, and its direct helper calls -/\n"
+            + f"def undefPycompatReach : List String × List String := ({ls(py_reach)}, {ls(py_helpers)})")
+    return {"rows": [{"kind": k, "name": n, "fn": f, "types": t, "reach": r, "helpers": h} for k, n, f, t, r, h in rows],
+            "pycompat": {"reach": py_reach, "helpers": py_helpers}}, lean
 
 
 # ---------------------------------------------------------------------------- every mention of the mode
